@@ -8,7 +8,7 @@
   Spec  = MongoModel.Spec.specEval / specFilter / toBool / ord   (the rules of the property text)
   D     = MongoModel.Spec.exprInD    (decidable; its negation is the list of named exclusion
           classes of Spec/ExprDomain.lean)
-  `$sum $avg $min $max` as expression operators: Impl = MongoModel.Expr.groupingList, Spec =
+  `$sum $avg $min $max` as expression operators: Impl = MongoModel.Expr.groupingInExpr, Spec =
           MongoModel.Spec.accS / accBareS / extremumS (last section)
 
   `none : Option Val` is "missing" (Python KeyError); `Ctx` is a parser instance
@@ -638,12 +638,14 @@ theorem concat_rejects (vals : List Val) (v : Val) (hv : v ∈ vals) (h1 : isNul
     order instead of raising TypeError) and 2f66991 (`$sum` / `$avg` ignore booleans like every
     other value that is not a number); findings `minmaxtypes`, `sumbool` (now `fixed`).  The
     operators are inside the fragment of `eval_eq_spec_partial`; the statements below say what
-    they compute.  `groupingList` is `_GROUPING_OPERATOR_MAP[op]` of the code, `accS` the rule. -/
+    they compute.  `groupingInExpr` is `_GROUPING_OPERATOR_MAP[op]` of the code as an expression
+    operator (`groupingList`, with no answer for an `$avg` whose integer sum `float()` would
+    round: the rule has none there either, `pyTrueDiv`), `accS` the rule. -/
 
 /-- **sum_avg_spec** (full strength: every list of values, no hypothesis) — `$sum` is the sum of
     the numbers among the values and `$avg` their mean; what is not a number is ignored. -/
 theorem sum_avg_spec (k : String) (hk : k = "$sum" ∨ k = "$avg") (xs : List Val) :
-    groupingList k xs = accS k (xs.map some) := by
+    groupingInExpr k xs = accS k (xs.map some) := by
   have := Proofs.C04.sumavg_eq k hk (xs.map some)
   rwa [Proofs.C04.nulled_some] at this
 
@@ -672,7 +674,7 @@ example : numbersOf [some (.bool true), none, some .null, some (.str "1")] = [] 
   simp [numbersOf, number]
 
 /-- the former counterexample of `sumbool`: `{$sum: [1, true]}` is 1 -/
-example : groupingList "$sum" [.int 1, .bool true] = .ok (.int 1) := by
+example : groupingInExpr "$sum" [.int 1, .bool true] = .ok (.int 1) := by
   rw [sum_avg_spec "$sum" (Or.inl rfl)]
   simp [accS, numbersOf, number, sumAll, PyNum.add, PyNum.check, PyNum.toVal, bind, Except.bind]
 
@@ -680,7 +682,7 @@ example : groupingList "$sum" [.int 1, .bool true] = .ok (.int 1) := by
     first least / greatest, in the BSON order of the rules, of the values that are not null. -/
 def minmax_spec_full : Prop :=
   ∀ (k : String), k = "$min" ∨ k = "$max" → ∀ xs : List Val,
-    groupingList k xs = accS k (xs.map some)
+    groupingInExpr k xs = accS k (xs.map some)
 
 /-- It is false of the code as it stands (known finding `boolnum`: inside arrays `bson_compare`
     skips the items that are equal by Python `==`, and `1 == True`): the rules put `[1]` below
@@ -688,7 +690,7 @@ def minmax_spec_full : Prop :=
 theorem minmax_spec_full_fails : ¬ minmax_spec_full := by
   intro h
   have := h "$max" (Or.inr rfl) [.arr [.int 1], .arr [.bool true]]
-  have h1 : groupingList "$max" [.arr [.int 1], .arr [.bool true]] = .ok (.arr [.int 1]) := by rfl
+  have h1 : groupingInExpr "$max" [.arr [.int 1], .arr [.bool true]] = .ok (.arr [.int 1]) := by rfl
   have h2 : accS "$max" ([Val.arr [.int 1], .arr [.bool true]].map some) =
       .ok (.arr [.bool true]) := by rfl
   rw [h1, h2] at this
@@ -701,7 +703,7 @@ theorem minmax_spec_full_fails : ¬ minmax_spec_full := by
     Values of several types are ordered by type (finding `minmaxtypes`, repaired). -/
 theorem minmax_spec_partial (k : String) (hk : k = "$min" ∨ k = "$max") (xs : List Val)
     (h : pairwiseReasons (xs.filter (fun v => !isNull v)) = []) :
-    groupingList k xs = accS k (xs.map some) := by
+    groupingInExpr k xs = accS k (xs.map some) := by
   have := Proofs.C04.minmax_eq k hk (xs.map some) (by rwa [Proofs.C04.presentOf_map_some])
   rwa [Proofs.C04.nulled_some] at this
 
@@ -710,7 +712,7 @@ example : pairwiseReasons ([Val.int 1, .str "x", .null, .bool true, .date 0 none
     .arr [.int 2, .str "a"], .dbl 3 1].filter (fun v => !isNull v)) = [] := by decide +kernel
 
 /-- the former counterexample of `minmaxtypes`: `{$max: [1, "x", true]}` is `true` -/
-example : groupingList "$max" [.int 1, .str "x", .bool true] = .ok (.bool true) := by rfl
+example : groupingInExpr "$max" [.int 1, .str "x", .bool true] = .ok (.bool true) := by rfl
 
 /-- nothing but null and missing values: `$min` and `$max` are null -/
 theorem minmax_of_nothing (k : String) (hk : k = "$min" ∨ k = "$max") (vs : List (Option Val))
